@@ -55,6 +55,21 @@ func (g *gen) assignment() {
 		g.use("expression.compoundAssign")
 	}
 	g.w(assignOps[k])
+	if g.chance(15) {
+		// the right-hand side is a creation itself (x = new int[n], x = new Foo<>() { ... })
+		g.use("expression.assignCreator")
+		if g.chance(40) {
+			// buf = new byte[n]
+			g.use("creator.arrayDims")
+			g.use("createdName.primitive")
+			g.w("new", primitives[g.n(len(primitives))], "[")
+			g.expr()
+			g.w("]")
+			return
+		}
+		g.creator()
+		return
+	}
 	g.expr()
 }
 
